@@ -36,8 +36,8 @@ THEOREMS = ["C01_rewrite_sound", "C01_rename_sound", "C01_fixpoint_sound", "C01_
 
 
 def main(ctx):
-    ctx.rule = ("seeded generator: 3 of 4 cases are random graphs (1-3 fusion-pattern templates out of 23 + glue operators, <= ~14 operators, "
-                "rank <= 4, dims <= 6, inputs declared with fixed / symbolic / no shape, optional value_info for all intermediates, some "
+    ctx.rule = ("seeded generator: 3 of 4 cases are random graphs (1-3 fusion-pattern templates out of 24 + glue operators, <= ~14 operators, "
+                "rank <= 4, dims <= 6, inputs declared with fixed / symbolic (own or shared names) / unnamed dynamic ('?') dims / no shape and run with sizes that differ wherever the declaration allows, optional value_info (fixed or partly unnamed dims) for all intermediates, some "
                 "intermediates also declared as graph outputs), 1 of 4 is a guard-focus case (exactly one pattern of IdentityFusion / "
                 "MatMulAdd / Transpose+MatMul / RepeatInterleave with a randomised constant rank/shape/value or axis, optionally an extra "
                 "consumer of an intermediate or an intermediate as graph output); every case is loaded and run under 4 configurations; "
